@@ -416,6 +416,33 @@ func c07Run(c *engine.Ctx) {
 	}
 	c.Sample(map[string]any{"lifecycle_programs": len(progs)})
 
+	// cancellation that arrives while a Next call is running, from inside a Go function the program calls: the function
+	// cancels in its N-th call, for every N; it must never be called again, and the outputs must be a prefix
+	c.Sub("cancel-from-callback")
+	{
+		ci := 0
+		for _, src := range c07TickPrograms {
+			for ii, in := range []any{univ.J(`[10,20,30,40]`), 1, nil} {
+				ci++
+				if !c.MineIdx(ci) {
+					continue
+				}
+				total, full := c07TickRun(src, in, 0)
+				if total < 0 {
+					continue
+				}
+				for n := 1; n <= total; n++ {
+					c.Eval()
+					if msg := c07TickCheck(src, in, n, full); msg != "" {
+						c.Violation(fmt.Sprintf("%s\tinput#%d\tcancel in call %d", src, ii, n), "cancellation-in-callback", map[string]any{"query": src, "input": univ.ToTagged(in), "call": n, "why": msg})
+					}
+					c.DistinctN(1)
+				}
+			}
+		}
+		c.Sample(map[string]any{"program": ".[] | tick", "input": "[10,20,30,40]", "cancel": "inside the N-th call of the Go function tick, for every N", "programs": len(c07TickPrograms)})
+	}
+
 	// entry points that must report problems as error values
 	c.Sub("entry-points")
 	if c.Shard == 0 {
@@ -548,9 +575,87 @@ func c07EntryPoints() (msg string) {
 	return ""
 }
 
+var c07TickPrograms = []string{".[]? | tick", "tick | tick | tick", "[range(20) | tick] | length", "range(6) | tick | tick", "reduce range(8) as $i (0; . + ($i | tick))", "limit(5; repeat(tick))", "[.[]? | tick] | map(tick)",
+	"first(range(10) | tick | select(. > 3))", "try (range(5) | tick) catch .", "tick as $x | range(3) | tick", "[.[]? | tick, tick]", "(range(3) | tick) // 9", "label $l | range(9) | tick | if . > 4 then break $l else . end",
+	"path(.[]? | tick)", "[foreach range(6) as $i (0; . + ($i | tick); .)]", "def f: tick | if . < 5 then . + 1 | f else . end; 0 | f", "range(4) | [tick, (. + 10 | tick)]", ". as $v | range(5) | tick | $v", "range(5) | tick | tostring | ascii_downcase"}
+
+// c07TickRun runs src with a Go function `tick` that returns its input and cancels the context in its n-th call (never
+// for n = 0); returns the number of calls and the events (outputs, then "ERROR:..." or "END").
+func c07TickRun(src string, in any, n int) (calls int, events []string) {
+	defer func() {
+		if r := recover(); r != nil {
+			calls, events = -1, []string{fmt.Sprint("panic: ", r)}
+		}
+	}()
+	q, err := gojq.Parse(src)
+	if err != nil {
+		return -1, nil
+	}
+	ctx, cancel := context.WithCancel(context.Background())
+	defer cancel()
+	code, err := gojq.Compile(q, gojq.WithFunction("tick", 0, 0, func(v any, _ []any) any {
+		calls++
+		if calls == n {
+			cancel()
+		}
+		return v
+	}))
+	if err != nil {
+		return -1, nil
+	}
+	it := code.RunWithContext(ctx, univ.Copy(in))
+	for k := 0; k < 400; k++ {
+		v, ok := it.Next()
+		if !ok {
+			events = append(events, "END")
+			break
+		}
+		if e, isErr := v.(error); isErr {
+			if e == context.Canceled {
+				events = append(events, "CANCELED")
+			} else {
+				events = append(events, "ERROR:"+e.Error())
+			}
+			continue
+		}
+		events = append(events, univ.Canon(v))
+	}
+	return calls, events
+}
+
+func c07TickCheck(src string, in any, n int, full []string) string {
+	calls, ev := c07TickRun(src, in, n)
+	if calls < 0 {
+		return fmt.Sprint("the run failed: ", ev)
+	}
+	if calls != n {
+		return fmt.Sprintf("the context was cancelled inside call %d of tick, and tick was called %d times in all", n, calls)
+	}
+	// outputs before the cancellation error are a prefix of the uncancelled run, then the error, then the end
+	i := 0
+	for i < len(ev) && ev[i] != "CANCELED" {
+		if i >= len(full) || ev[i] != full[i] {
+			return fmt.Sprintf("event %d is %s, the uncancelled run has %v", i, ev[i], full)
+		}
+		i++
+	}
+	if i == len(ev) {
+		return fmt.Sprintf("the context error was never returned: %v", ev)
+	}
+	if len(ev) != i+2 || ev[i+1] != "END" {
+		return fmt.Sprintf("after the context error: %v", ev[i+1:])
+	}
+	return ""
+}
+
 func c07Replay(v *engine.Violation) (bool, string) {
 	d := v.Detail
 	switch v.Check {
+	case "cancel-from-callback":
+		in := univ.FromTagged(d["input"])
+		_, full := c07TickRun(d["query"].(string), in, 0)
+		msg := c07TickCheck(d["query"].(string), in, int(d["call"].(float64)), full)
+		return msg != "", msg
 	case "entry-points":
 		msg := c07EntryPoints()
 		return msg != "", msg
@@ -601,7 +706,7 @@ func init() {
 		Run:             c07Run,
 		Replay:          c07Replay,
 		QuickBudget:     150 * time.Second,
-		ThoroughBudget: 8 * time.Minute,
+		ThoroughBudget:  8 * time.Minute,
 		HangIsViolation: true,
 		HangLimit:       15 * time.Second,
 	})
